@@ -127,6 +127,22 @@ CHECKS = {
     ),
 }
 
+CHECKS["C12"] = dict(
+    level="model_checking",
+    text=("TLC explores the read-by-read framing state machines of spec/N2KFraming.tla (fixed-size packets, lines, start marker + "
+          "window with a hold-back buffer) over every byte stream up to 7 bytes (9 thorough) of an alphabet containing the markers and "
+          "the line end and EVERY segmentation into reads: emitted packets are independent of the read boundaries, the bounded marker "
+          "variant equals the unbounded one, held-back bytes are bounded. The four real clients are then run on a deterministic "
+          "virtual-time asyncio loop against a simulated gateway with streams of valid, undecodable and unknown packets under "
+          "hundreds of segmentations (whole, byte by byte, every single cut, random multi-cuts) x receive callbacks that succeed, "
+          "raise or are slow; every session is judged by TLC against the framing model: exactly the decodable packets, once, in order, "
+          "each delivered as soon as its last byte was read."),
+    note=("Trusted: TLC; the virtual-time loop (relies on Python 3.12 asyncio internals _ready/_scheduled/_run_once); a second decoder "
+          "instance with the same settings as content oracle; real asyncio.StreamReader, fake writer."),
+    design="5/C12",
+    technique="TLA+ spec N2KFraming model-checked over all segmentations; real client sessions on a virtual-time loop validated by TLC",
+)
+
 NOT_YET = {
 }
 
